@@ -48,6 +48,42 @@ theorem Tbl.All.modify {P Q : Nat → Entry → Prop} {t : Tbl} (h : Tbl.All P t
   · simp only [hc] at hg ⊢
     exact hother _ _ hg (h q hq hg)
 
+theorem Tbl.get_cons_hit {p : Nat × Entry} {r : Tbl} {i : Nat} (hc : (p.1 == i && !p.2.gone) = true) :
+    Tbl.get (p :: r) i = some p.2 := by
+  unfold Tbl.get
+  simp [List.find?_cons, hc]
+
+theorem Tbl.get_cons_miss {p : Nat × Entry} {r : Tbl} {i : Nat} (hc : ¬ (p.1 == i && !p.2.gone) = true) :
+    Tbl.get (p :: r) i = Tbl.get r i := by
+  unfold Tbl.get
+  simp only [List.find?_cons]
+  simp only [Bool.not_eq_true] at hc
+  rw [hc]
+
+/-- `modify1` changes exactly the entry that `get` returns: `hf` is only needed for that entry -/
+theorem Tbl.All.modify1 {P : Nat → Entry → Prop} {t : Tbl} (h : Tbl.All P t) (i : Nat) (f : Entry → Entry)
+    (hf : ∀ e, t.get i = some e → e.gone = false → P i e → (f e).gone = false → P i (f e)) :
+    Tbl.All P (t.modify1 i f) := by
+  induction t with
+  | nil => intro p hp; cases hp
+  | cons p r ih =>
+    have hr : Tbl.All P r := fun q hq => h q (List.mem_cons_of_mem _ hq)
+    unfold Tbl.modify1
+    by_cases hc : (p.1 == i && !p.2.gone) = true
+    · simp only [hc, if_true]
+      intro q hq hg
+      rcases List.mem_cons.mp hq with rfl | hq
+      · simp at hc
+        have hp := h p List.mem_cons_self hc.2
+        have := hf p.2 (Tbl.get_cons_hit (by simp [hc])) hc.2 (hc.1 ▸ hp) hg
+        simpa [hc.1] using this
+      · exact hr q hq hg
+    · simp only [hc]
+      intro q hq hg
+      rcases List.mem_cons.mp hq with rfl | hq
+      · exact h q List.mem_cons_self hg
+      · exact ih hr (fun e he => hf e (by rw [Tbl.get_cons_miss hc]; exact he)) q hq hg
+
 theorem Tbl.All.put {P : Nat → Entry → Prop} {t : Tbl} (h : Tbl.All P t) (i : Nat) (e : Entry)
     (he : e.gone = false → P i e) : Tbl.All P (t.put i e) := by
   intro p hp hg
@@ -125,6 +161,10 @@ theorem giveUp_of_no_tries {cands : Nat} : Gen.giveUp cands 0 = true := by
   unfold Gen.giveUp
   simp
 
+theorem closeOnPop_enabled : Gen.closeOnPop true = true := by
+  unfold Gen.closeOnPop
+  rfl
+
 theorem removeDelay_le (c : Cfg) (b : Bool) : removeDelay c b ≤ c.delay := by
   unfold removeDelay
   split <;> omega
@@ -189,11 +229,16 @@ theorem pop_live {n : Nat} {e : Entry} (h : (e.pop n).gone = false) : ∀ r, e.r
 theorem pop_opened_of_gone {n : Nat} {e : Entry} (h : e.gone = false) (hg : (e.pop n).gone = true) :
     (e.pop n).opened = false := by
   unfold Entry.pop at hg ⊢
-  split
-  · split
-    · rfl
-    · rename_i hr _ ; simp [hr] at hg; split at hg <;> simp_all
-  · rename_i hr; simp [hr] at hg; exact absurd hg (by simp [h])
+  cases hr : e.rmAt with
+  | none => simp [hr, h] at hg
+  | some r =>
+    simp only [hr] at hg ⊢
+    by_cases hle : r ≤ n
+    · simp only [hle, if_true]
+      cases ho : e.opened with
+      | false => rfl
+      | true => simp [closeOnPop_enabled]
+    · simp [hle, h] at hg
 
 /-- a live entry stays sane when the clock moves from `n` to `n+1` (after `pop (n+1)`) -/
 theorem Sane.step {c : Cfg} {n : Nat} {e : Entry} (h : Sane c n e) (hl : (e.pop (n + 1)).gone = false) :
@@ -336,21 +381,17 @@ theorem RelayInv.new {c : Cfg} {n ns : Nat} (ht : TimeOk c n ns) (other peer : N
   · exact Bound.fresh _ ht (by show n ≤ n + c.inactive; omega)
   · exact ⟨by show 0 + Gen.earlyInit ≤ Gen.earlyInit; omega, Or.inl rfl⟩
 
-theorem RelayInv.fwd {c : Cfg} {n ns : Nat} {e : Entry} (early : Bool) (h : RelayInv c n ns e) :
-    RelayInv c n ns (e.fwd c early) := by
+theorem RelayInv.fwd {c : Cfg} {n ns : Nat} {e : Entry} (early : Bool) (h : RelayInv c n ns e)
+    (hd : Gen.earlyDrop c early e.early = false) : RelayInv c n ns (e.fwd early) := by
   unfold Entry.fwd
-  split
-  · exact h
-  · rename_i hd
-    simp at hd
-    obtain ⟨hs, hi, hj, hk⟩ := h
-    refine ⟨hs.congr rfl rfl rfl rfl, Bound.congr hi rfl, ?_⟩
-    cases early with
-    | false => exact ⟨by show e.fwdEarly + 0 + Gen.earlyInit ≤ e.early + 1; omega, by simpa using hk⟩
-    | true =>
-      have := earlyDrop_false hd
-      exact ⟨by show e.fwdEarly + 1 + Gen.earlyInit ≤ e.early + 1; omega,
-             Or.inr (by show e.fwdEarly + 1 + Gen.earlyInit ≤ c.maxEarly; omega)⟩
+  obtain ⟨hs, hi, hj, hk⟩ := h
+  refine ⟨hs.congr rfl rfl rfl rfl, Bound.congr hi rfl, ?_⟩
+  cases early with
+  | false => exact ⟨by show e.fwdEarly + 0 + Gen.earlyInit ≤ e.early + 1; omega, by simpa using hk⟩
+  | true =>
+    have := earlyDrop_false hd
+    exact ⟨by show e.fwdEarly + 1 + Gen.earlyInit ≤ e.early + 1; omega,
+           Or.inr (by show e.fwdEarly + 1 + Gen.earlyInit ≤ c.maxEarly; omega)⟩
 
 theorem RelayInv.bytes {c : Cfg} {n ns : Nat} {e : Entry} (a : Nat) (h : RelayInv c n ns e) :
     RelayInv c n ns { e with bytes := e.bytes + a } :=
@@ -899,14 +940,20 @@ theorem Inv.onCell {c : Cfg} {s : Node} (h : Inv c s) (id : Nat) (early plain ok
     Inv c (s.onCell c id early plain ok body) := by
   unfold Node.onCell
   split
-  · rename_i nr _
-    simp only
-    have h1 : Tbl.All (fun _ e => RelayInv c s.now s.nextSweep e) (s.relays.modify nr.other (Entry.beat s.now)) :=
-      h.modRelays _ _ (fun e _ hp _ => RelayInv.beat h.time hp)
+  · rename_i nr hnr
     split
-    · exact ⟨h.time, h.circ, h1, h.exit, h.closed, h.noleak⟩
-    · refine ⟨h.time, h.circ, ?_, h.exit, h.closed, h.noleak⟩
-      exact h1.modify _ _ (fun _ _ _ hp => hp) (fun e _ hp _ => RelayInv.fwd early hp)
+    · exact ⟨h.time, h.circ, h.modRelays _ _ (fun e _ hp _ => RelayInv.beat h.time hp), h.exit, h.closed, h.noleak⟩
+    · rename_i hguard
+      have hd : Gen.earlyDrop c early nr.early = false := by
+        cases hx : Gen.earlyDrop c early nr.early with
+        | false => rfl
+        | true => simp [hx] at hguard
+      refine ⟨h.time, h.circ, ?_, h.exit, h.closed, h.noleak⟩
+      have h1 : Tbl.All (fun _ e => RelayInv c s.now s.nextSweep e) (s.relays.modify1 id (Entry.fwd early)) :=
+        h.relay.modify1 _ _ (fun e he _ hp _ => by
+          rw [hnr] at he; cases he
+          exact RelayInv.fwd early hp hd)
+      exact h1.modify _ _ (fun _ _ _ hp => hp) (fun e _ hp _ => RelayInv.beat h.time hp)
   · simp only
     split
     · exact h
@@ -938,7 +985,8 @@ theorem Inv.onDestroyRest {c : Cfg} {s : Node} (h : Inv c s) (id peer : Nat) : I
       · exact h
     · exact h
 
-theorem Inv.onDestroy {c : Cfg} {s : Node} (h : Inv c s) (id peer : Nat) : Inv c (s.onDestroy c id peer) := by
+theorem Inv.onDestroy {c : Cfg} {s : Node} (h : Inv c s) (id peer : Nat) (fwd : Bool) :
+    Inv c (s.onDestroy c id peer fwd) := by
   unfold Node.onDestroy
   split
   · split
@@ -956,7 +1004,7 @@ theorem Inv.step {c : Cfg} {s : Node} (h : Inv c s) (ev : Ev) : Inv c (s.step c 
   | mkCircuit id goal peer cands ident =>
     exact ⟨h.time, h.circ.put _ _ (fun _ => CircInv.new h.time goal peer _), h.relay, h.exit, h.closed, h.noleak⟩
   | cell id early plain ok body => exact h.onCell id early plain ok body
-  | destroy id peer => exact h.onDestroy id peer
+  | destroy id peer fwd => exact h.onDestroy id peer fwd
   | rmCircuit id destroy =>
     show Inv c (match s.circuits.get id with | some e => _ | none => s)
     split
@@ -1105,7 +1153,6 @@ theorem Emits.onCell {c : Cfg} (s : Node) (id : Nat) (early plain ok : Bool) (bo
   unfold Node.onCell
   split
   · rename_i nr hnr
-    simp only
     split
     · exact Emits.single _ rfl trivial
     · exact Emits.single _ rfl (by show (s.relays.get id).isSome = true; rw [hnr]; rfl)
@@ -1119,6 +1166,12 @@ theorem Emits.onCell {c : Cfg} (s : Node) (id : Nat) (early plain ok : Bool) (bo
             | some e => e.peer
             | none => 0) body
       exact ⟨extra, h1, h2⟩
+
+theorem Emits.ifDestroy {s s' : Node} (b : Bool) (p i : Nat)
+    (h : s'.outs = s.outs ++ (if b = true then [Out.destroy p i] else [])) : Emits s s' := by
+  cases b with
+  | true => exact Emits.single (Out.destroy p i) (by simpa using h) trivial
+  | false => exact Emits.silent (by simpa using h)
 
 theorem Emits.onDestroyRest {c : Cfg} (s : Node) (id peer : Nat) : Emits s (s.onDestroyRest c id peer) := by
   unfold Node.onDestroyRest
@@ -1136,27 +1189,21 @@ theorem Emits.onDestroyRest {c : Cfg} (s : Node) (id peer : Nat) : Emits s (s.on
       · exact Emits.silent rfl
     · exact Emits.silent rfl
 
-theorem Emits.onDestroy {c : Cfg} (s : Node) (id peer : Nat) : Emits s (s.onDestroy c id peer) := by
+theorem Emits.onDestroy {c : Cfg} (s : Node) (id peer : Nat) (fwd : Bool) : Emits s (s.onDestroy c id peer fwd) := by
   unfold Node.onDestroy
   split
   · split
     · split
-      · exact Emits.single _ rfl trivial
+      · exact Emits.ifDestroy fwd _ _ rfl
       · exact Emits.onDestroyRest s id peer
     · exact Emits.onDestroyRest s id peer
   · exact Emits.onDestroyRest s id peer
-
-theorem Emits.ifDestroy {s s' : Node} (b : Bool) (p i : Nat)
-    (h : s'.outs = s.outs ++ (if b = true then [Out.destroy p i] else [])) : Emits s s' := by
-  cases b with
-  | true => exact Emits.single (Out.destroy p i) (by simpa using h) trivial
-  | false => exact Emits.silent (by simpa using h)
 
 theorem Emits.step {c : Cfg} (s : Node) (ev : Ev) : Emits s (s.step c ev) := by
   cases ev with
   | mkCircuit id goal peer cands ident => exact Emits.single _ rfl (Or.inl rfl)
   | cell id early plain ok body => exact Emits.onCell s id early plain ok body
-  | destroy id peer => exact Emits.onDestroy s id peer
+  | destroy id peer fwd => exact Emits.onDestroy s id peer fwd
   | rmCircuit id destroy =>
     show Emits s (match s.circuits.get id with | some e => _ | none => s)
     split
@@ -1377,7 +1424,8 @@ theorem QuietStep.onDestroyRest (c : Cfg) (s : Node) (id peer : Nat) : QuietStep
       · exact QuietStep.refl s
     · exact QuietStep.refl s
 
-theorem QuietStep.onDestroy (c : Cfg) (s : Node) (id peer : Nat) : QuietStep s (s.onDestroy c id peer) := by
+theorem QuietStep.onDestroy (c : Cfg) (s : Node) (id peer : Nat) (fwd : Bool) :
+    QuietStep s (s.onDestroy c id peer fwd) := by
   unfold Node.onDestroy
   split
   · split
@@ -1399,7 +1447,7 @@ theorem QuietStep.step (c : Cfg) (s : Node) (ev : Ev) (h : ev.isLocal = true) : 
   cases ev with
   | mkCircuit id goal peer cands ident => cases h
   | cell id early plain ok body => cases h
-  | destroy id peer => exact QuietStep.onDestroy c s id peer
+  | destroy id peer fwd => exact QuietStep.onDestroy c s id peer fwd
   | rmCircuit id destroy =>
     show QuietStep s (match s.circuits.get id with | some e => _ | Option.none => s)
     split
@@ -1429,5 +1477,91 @@ theorem QuietStep.step (c : Cfg) (s : Node) (ev : Ev) (h : ev.isLocal = true) : 
     · split
       · exact ⟨LastKept.refl _, LastKept.modify _ _ (fun e => { e with bytes := e.bytes + amount }) (fun _ => rfl), LastKept.refl _⟩
       · exact ⟨LastKept.refl _, LastKept.refl _, LastKept.modify _ _ (fun e => { e with bytes := e.bytes + amount }) (fun _ => rfl)⟩
+
+/-! ### a destroy from the neighbour schedules the removal -/
+
+/-- a removal is pending that ends at most `delay` after `n` -/
+def Pend (c : Cfg) (n : Nat) (e : Entry) : Prop := ∃ r, e.rmAt = some r ∧ r ≤ n + c.delay
+
+theorem Pend.remove {c : Cfg} {n : Nat} (b : Bool) {e : Entry} (hl : (e.remove c n b).gone = false) :
+    Pend c n (e.remove c n b) := by
+  unfold Entry.remove at hl ⊢
+  obtain ⟨r, hr, hrt, -, -⟩ := sched_pop hl
+  have := removeDelay_le c b
+  exact ⟨r, hr, by omega⟩
+
+theorem Pend.removeC {c : Cfg} {n : Nat} {e : Entry} (hl : (e.removeC c n).gone = false) : Pend c n (e.removeC c n) := by
+  unfold Entry.removeC at hl ⊢
+  exact Pend.remove false hl
+
+theorem Tbl.mem_modify_key {t : Tbl} {i : Nat} {f : Entry → Entry} {e' : Entry} (hm : (i, e') ∈ t.modify i f)
+    (hg : e'.gone = false) : ∃ e, (i, e) ∈ t ∧ e.gone = false ∧ e' = f e := by
+  unfold Tbl.modify at hm
+  rw [List.mem_map] at hm
+  obtain ⟨q, hq, heq⟩ := hm
+  by_cases hc : (q.1 == i && !q.2.gone) = true
+  · simp only [hc, if_true] at heq
+    simp at hc
+    have h1 : q.1 = i := hc.1
+    have h2 : f q.2 = e' := by cases heq; rfl
+    exact ⟨q.2, by rw [← h1]; exact hq, hc.2, h2.symm⟩
+  · simp only [hc, Bool.false_eq_true, ↓reduceIte] at heq
+    exfalso
+    apply hc
+    have h1 : q.1 = i := by rw [heq]
+    have h2 : q.2 = e' := by rw [heq]
+    simp [h1, h2, hg]
+
+/-- every live entry under key `k` has a pending removal -/
+def KeyPend (c : Cfg) (n k : Nat) (t : Tbl) : Prop := ∀ e, (k, e) ∈ t → e.gone = false → Pend c n e
+
+theorem KeyPend.modify_self (c : Cfg) (n i : Nat) (b : Bool) (t : Tbl) :
+    KeyPend c n i (t.modify i (Entry.remove c n b)) := by
+  intro e hm hg
+  obtain ⟨e0, -, -, rfl⟩ := Tbl.mem_modify_key hm hg
+  exact Pend.remove b hg
+
+theorem KeyPend.modifyC_self (c : Cfg) (n i : Nat) (t : Tbl) : KeyPend c n i (t.modify i (Entry.removeC c n)) := by
+  intro e hm hg
+  obtain ⟨e0, -, -, rfl⟩ := Tbl.mem_modify_key hm hg
+  exact Pend.removeC hg
+
+theorem KeyPend.modify_other {c : Cfg} {n k : Nat} {t : Tbl} (h : KeyPend c n k t) (j : Nat) (b : Bool) :
+    KeyPend c n k (t.modify j (Entry.remove c n b)) := by
+  intro e hm hg
+  unfold Tbl.modify at hm
+  rw [List.mem_map] at hm
+  obtain ⟨q, hq, heq⟩ := hm
+  by_cases hc : (q.1 == j && !q.2.gone) = true
+  · simp only [hc, if_true] at heq
+    have h2 : Entry.remove c n b q.2 = e := by cases heq; rfl
+    rw [← h2] at hg ⊢
+    exact Pend.remove b hg
+  · simp only [hc, Bool.false_eq_true, ↓reduceIte] at heq
+    rw [heq] at hq
+    exact h e hq hg
+
+/-- the pop really happens when the time has come -/
+theorem pop_fires {n r : Nat} {e : Entry} (hr : e.rmAt = some r) (hle : r ≤ n) : (e.pop n).gone = true := by
+  unfold Entry.pop
+  simp [hr, hle]
+
+theorem tickRelay_fires {c : Cfg} {n r : Nat} {sw : Bool} {e : Entry} (hr : e.rmAt = some r) (hle : r ≤ n) :
+    (tickRelay c n sw e).gone = true := by
+  unfold tickRelay
+  simp [pop_fires hr hle]
+
+theorem tickExit_fires {c : Cfg} {n r : Nat} {sw : Bool} {e : Entry} (hr : e.rmAt = some r) (hle : r ≤ n) :
+    (tickExit c n sw e).gone = true ∧ (tickExit c n sw e).opened = (e.opened && !Gen.closeOnPop e.opened) := by
+  unfold tickExit
+  simp only [pop_fires hr hle, if_true]
+  refine ⟨trivial, ?_⟩
+  unfold Entry.pop
+  simp [hr, hle]
+
+theorem tickCircuit_fires {c : Cfg} {n r : Nat} {sw : Bool} {e : Entry} (hr : e.rmAt = some r) (hle : r ≤ n) :
+    (tickCircuit c n sw e).gone = true := by
+  unfold tickCircuit
+  simp [pop_fires hr hle]
 
 end Ipv8.C09
